@@ -128,14 +128,9 @@ impl<T> VecIter<T> {
             r.is_none() ==> forall|j: int| 0 <= j < old(self).rem().len() ==> f.ensures((#[trigger] old(self).rem()[j],), false),
     { unimplemented!() }
 }
-// (4) the host's total order on values (`obj_cmp`), uninterpreted: only that it is a strict total order on
-//     encoded values is assumed.  `Vec::binary_search` is specified against it: an `Ok(i)` always points at
+// (4) the host's total order on values (`obj_cmp`), uninterpreted (no order axiom is assumed or needed).  `Vec::binary_search` is specified against it: an `Ok(i)` always points at
 //     an equal element; on a strictly sorted vector the answer is the exact one.
 pub uninterp spec fn host_lt(a: SV, b: SV) -> bool;
-#[verifier::external_body]
-pub proof fn lemma_host_lt_order(a: SV, b: SV, c: SV)
-    ensures !host_lt(a, a), host_lt(a, b) && host_lt(b, c) ==> host_lt(a, c), a != b ==> host_lt(a, b) || host_lt(b, a),
-{}
 pub open spec fn host_sorted<T: ToSV>(s: Seq<T>) -> bool {
     forall|i: int, j: int| 0 <= i < j < s.len() ==> host_lt(#[trigger] s[i].sv(), #[trigger] s[j].sv())
 }
